@@ -25,10 +25,10 @@ META = dict(
          "__getnewargs__/__getstate__/__setstate__ protocol used by copy.copy, copy.deepcopy and pickle return the same "
          "tokens, name table, list-all names and _name (copy_preserves, pickle_roundtrip, copy_same_answers: every C10 "
          "operation answers a copy like the original); a+b is the merge of list and multimap (concat_is_merge), "
-         "associative (concat_assoc, concat_assoc_of_truthy) with the empty result as right identity always and left "
-         "identity (concat_empty_right/left), sum() is the left fold (sum_is_fold) — under the exact side condition of "
-         "C10.iadd_refines_iff; outside it associativity is false (concat_assoc_fails_witness, registered finding "
-         "concat_assoc_falsy_listall). Aliasing, heap model (PPProofs/Props/C11Heap.lean; list cells, dict cells, "
+         "associative (concat_assoc) with the empty result as right and left "
+         "identity (concat_empty_right/left), sum() is the left fold (sum_is_fold) — for all well-formed operands, no "
+         "side condition (concat_assoc_former_witness = regression witness of the fixed finding "
+         "concat_assoc_falsy_listall, pyparsing 448d339). Aliasing, heap model (PPProofs/Props/C11Heap.lean; list cells, dict cells, "
          "occurrence-list cells, objects with identity): frame_step/frame_all (any sequence of own-token/own-name "
          "mutations of an object leaves the view of every object with separate list and dict cell unchanged, although "
          "occurrence lists are shared and rewritten in place), copy_frame and copyModule_frame (copy() and the "
@@ -36,12 +36,16 @@ META = dict(
          "— full strength on the model for all heaps/objects/mutation sequences. PARTIAL: deepcopy()/copy.deepcopy/"
          "pickle of nested groups are not proved (only the one-level deepcopy1 witness "
          "deepcopy_named_group_aliased_witness = registered finding deepcopy_named_group_aliased: deepcopy() leaves "
-         "named nested values shared with the original); from_dict is not modelled. Those clauses are decided by the "
-         "mutate-then-compare / round-trip oracles on the real class only.",
+         "named nested values shared with the original); that clause is decided by the mutate-then-compare oracle on "
+         "the real class only. from_dict: tree model of from_dict/as_dict (PPModel/Mod/PRFromDict.lean), "
+         "from_dict_roundtrip proved for ALL dicts whose nested dicts are non-empty, at every depth (full strength on "
+         "the tree model; its one assumption about `+=` in the loop is proved on the full model as from_dict_item_step; tied to the class by a "
+         "per-run structural correspondence); from_dict_empty_inner_dict shows why `non-empty` is needed.",
     note="Trusted: Lean kernel; axioms propext/Classical.choice/Quot.sound; the value model of results.py (C10) and the "
          "transcription of copy()/__getstate__/__setstate__/__add__/__radd__; the heap model (PRHeap.lean) is tied to the "
          "class only by a 30-cell sharing table (3 kinds of copy x 10 probes) and by the frame oracle; CPython copy/pickle "
-         "protocol dispatch is assumed, not modelled; deep kinds and from_dict are oracle-checked only (no proof).",
+         "protocol dispatch is assumed, not modelled; nested-group frames of the deep kinds are oracle-checked only (no "
+         "proof); the from_dict tree model is a separate small model (not derived from the PR model in Lean).",
     technique="Lean 4 proof on the value model + differential copies/concatenations + mutate-then-compare oracle",
     design="§5 C11",
 )
@@ -55,17 +59,24 @@ HEAP_THEOREMS = [
     "PP.PRHeap.deepcopy_named_group_aliased_witness",
 ]
 
+FROMDICT_THEOREMS = [
+    "PP.FromDict.from_dict_roundtrip",
+    "PP.FromDict.rt_conv",
+    "PP.FromDict.rt_body",
+    "PP.FromDict.from_dict_empty_inner_dict",
+]
+
 THEOREMS = [
     "PP.PR.copy_preserves",
     "PP.PR.pickle_roundtrip",
     "PP.PR.copy_same_answers",
     "PP.PR.concat_is_merge",
     "PP.PR.concat_assoc",
-    "PP.PR.concat_assoc_of_truthy",
     "PP.PR.concat_empty_right",
     "PP.PR.concat_empty_left",
     "PP.PR.sum_is_fold",
-    "PP.PR.concat_assoc_fails_witness",
+    "PP.PR.concat_assoc_former_witness",
+    "PP.PR.from_dict_item_step",
 ]
 
 KINDS = ["copy", "copy.copy", "deepcopy", "copy.deepcopy", "pickle"]
@@ -263,13 +274,8 @@ def concat_check(pp, case, allow_region=False):
         a, b, c = (prlib.build_start(pp, s) for s in case["objs"])
     except prlib.ERRS:
         return None
-    if not allow_region:
-        ab = a + b
-        bc = b + c
-        if in_region(pp, a, b) or in_region(pp, b, c) or in_region(pp, ab, c) or in_region(pp, a, bc):
-            return "region"
     snaps = [snapshot(pp, x) for x in (a, b, c)]
-    sa, sb, sc = (prlib.Spec.of_real(pp, x) for x in (a, b, c))
+    sa, sb, sc = (prlib.Spec.of_start(pp, s) for s in case["objs"])
     ab = a + b
     exp = prlib.Spec(sa.toks, sa.names, sa.la)
     exp.merge(sb)
@@ -291,7 +297,7 @@ def concat_check(pp, case, allow_region=False):
     e = PR([])
     if snapshot(pp, a + e) != snapshot(pp, a.copy()):
         return ("a + empty != a", snapshot(pp, a.copy()), snapshot(pp, a + e))
-    if not in_region(pp, e, a) and snapshot(pp, e + a) != snapshot(pp, a.copy()):
+    if snapshot(pp, e + a) != snapshot(pp, a.copy()):
         return ("empty + a != a", snapshot(pp, a.copy()), snapshot(pp, e + a))
     if [snapshot(pp, x) for x in (a, b, c)] != snaps:
         return ("+ / sum changed an operand", snaps, [snapshot(pp, x) for x in (a, b, c)])
@@ -344,6 +350,30 @@ def gen_dict(rng, depth=0):
     return d
 
 
+def j_sexp(pp, v):
+    """argument of from_dict in the driver's language"""
+    if isinstance(v, dict):
+        return [Sym("d")] + [[str(k), j_sexp(pp, x)] for k, x in v.items()]
+    if isinstance(v, list):
+        return [Sym("l")] + [j_sexp(pp, x) for x in v]
+    return [Sym("atom"), prlib.canon(pp, v)]
+
+
+def j_canon(pp, v):
+    """as_dict() output, canonical"""
+    if isinstance(v, dict):
+        return [Sym("dct")] + [[str(k), j_canon(pp, x)] for k, x in v.items()]
+    if isinstance(v, list):
+        return [Sym("l")] + [j_canon(pp, x) for x in v]
+    return prlib.canon(pp, v)
+
+
+def from_dict_impl(pp, d):
+    """(structure of from_dict(d), as_dict()) — only the second is an observable of the property"""
+    r = pp.ParseResults.from_dict(d)
+    return dumps(prlib.canon(pp, r)), dumps(j_canon(pp, r.as_dict()))
+
+
 def from_dict_check(pp, d):
     try:
         got = pp.ParseResults.from_dict(d).as_dict()
@@ -391,13 +421,15 @@ def run(ctx):
     pp = common.import_pyparsing()
     PR = pp.ParseResults
     attr_ok = lambda nm: not hasattr(PR, nm)
-    proof_ok = ctx.proof_leg("PPProofs.Props.C11", THEOREMS + HEAP_THEOREMS, extra_modules=("PPProofs.Props.C11Heap",))
+    proof_ok = ctx.proof_leg("PPProofs.Props.C11", THEOREMS + HEAP_THEOREMS + FROMDICT_THEOREMS,
+                              extra_modules=("PPProofs.Props.C11Heap", "PPProofs.Props.C11FromDict"))
     ctx.rule.append(
         "start objects as in C10 (real parse results of 16 grammars incl. nested groups, list-all names, int tokens; "
         "constructor calls); kinds copy()/copy.copy/deepcopy()/copy.deepcopy/pickle; frames: 1..6 own mutations (the 15 "
         "mutating C10 operations) of copy or original, for the deep kinds also of nested groups reached through tokens "
         "and names; concatenation triples; from_dict on random nested non-empty dicts of scalars and (nested) lists; "
-        f"generators stay out of the regions of the registered findings {SIG_ASSOC} and {SIG_DEEP}")
+        f"generators stay out of the region of the registered finding {SIG_DEEP} only; the witness of the fixed finding "
+        f"{SIG_ASSOC} runs as an ordinary regression case and its former region is generated")
     # ---- registered witnesses / fixed cases ------------------------------------------------------------------
     bad = frame_case(pp, DEEP_WITNESS)
     if bad is not None:
@@ -406,7 +438,7 @@ def run(ctx):
     w = concat_check(pp, ASSOC_WITNESS, allow_region=True)
     if w is not None and w != "region":
         ctx.fail_input("concatenation is not associative when an empty operand carries a list-all name",
-                       ASSOC_WITNESS, w[1], w[2], theorem="PP.PR.concat_assoc_fails_witness", signature=SIG_ASSOC)
+                       ASSOC_WITNESS, w[1], w[2], theorem="PP.PR.concat_assoc_former_witness")
     nfix = 2
     for case in FRAME_FIXED:
         nfix += 1
@@ -493,14 +525,38 @@ def run(ctx):
     n = 0
     fixed = [{"a": 1, "b": [1, 2], "c": {"d": "x"}}, {"a": {"b": {"c": [1, "s"]}}}, {"a": []}, {"a": [[1, 2], [3]]},
              {"a": None, "b": ""}]
-    for d in fixed + [gen_dict(rng) for _ in range(ctx.budget(1500, 15000))]:
+    dicts = fixed + [gen_dict(rng) for _ in range(ctx.budget(1500, 15000))]
+    for d in dicts:
         n += 1
         res = from_dict_check(pp, d)
         if res is not None and len(ctx.fail_inputs) < 3:
-            ctx.fail_input("from_dict(d).as_dict() != d", {"dict": d}, _plain(d), res, theorem="C11 from_dict (oracle only)")
+            ctx.fail_input("from_dict(d).as_dict() != d", {"dict": d}, _plain(d), res,
+                           theorem="PP.FromDict.from_dict_roundtrip")
     ctx.count_cases("from_dict", n, distinct_keys=range(n), samples=[{"dict": fixed[0]}])
+    # correspondence of the tree model (structure of from_dict(d) and as_dict()), incl. the excluded empty inner dict
+    cdicts = dicts + [{"c": {}}, {"a": {"b": {}}, "k": [1]}, {}]
+    from ..sexp import loads
+    mouts = [loads(o) for o in ctx.driver.run_sharded([sx(Sym("fromdict"), j_sexp(pp, d)) for d in cdicts])]
+    impls = [from_dict_impl(pp, d) for d in cdicts]
+    # the internal structure of from_dict(d) (which tokens, which named values) is not something C11 speaks about:
+    # a difference there is recorded, never alarmed on; the as_dict() projection is the correspondence
+    ctx.notes["from_dict_structure_differs_from_model"] = sum(1 for m, i in zip(mouts, impls) if dumps(m[0]) != i[0])
+    d3 = ctx.correspond("from_dict-model", [{"dict": d} for d in cdicts], None, [i[1] for i in impls],
+                        model_outputs=[dumps(m[1]) for m in mouts],
+                        nontrivial=lambda c, o: "(dct" in o[5:] and "(l" in o,
+                        outcome_of=lambda c, o: "nested" if any(isinstance(v, dict) for v in c["dict"].values()) else "flat")
+    if d3 and not ctx.fail_inputs:      # the model no longer describes the code: search harder for a failing input
+        rng2 = ctx.subrng("fromdict-search")
+        for _ in range(ctx.budget(20000, 100000)):
+            d = gen_dict(rng2)
+            res = from_dict_check(pp, d)
+            if res is not None:
+                ctx.fail_input("from_dict(d).as_dict() != d", {"dict": d}, _plain(d), res,
+                               theorem="PP.FromDict.from_dict_roundtrip")
+                break
     ctx.assumptions.append("C11: the frame theorems are about the heap model of copy()/copy.copy; nested-group frames of the "
-                           "deep kinds and from_dict are decided by the oracle on the real class only")
+                           "deep kinds are decided by the oracle on the real class only; from_dict: tree model + round-trip "
+                           "theorem + structural correspondence")
 
 
 def replay(data):
